@@ -250,6 +250,7 @@ impl Iommu {
 impl Aml for Iommu {
     fn to_aml_bytes(&self, sink: &mut dyn AmlSink) {
         // Type
+        assert!(self.len() <= u16::MAX as usize);
         sink.byte(RimtDeviceType::Iommu as u8);
         // Revision
         sink.byte(1);
@@ -402,6 +403,7 @@ impl PcieRootComplex {
 impl Aml for PcieRootComplex {
     fn to_aml_bytes(&self, sink: &mut dyn AmlSink) {
         // Type
+        assert!(self.len() <= u16::MAX as usize);
         sink.byte(RimtDeviceType::PcieRootComplex as u8);
         // Revision
         sink.byte(1);
@@ -464,6 +466,7 @@ impl Platform {
 impl Aml for Platform {
     fn to_aml_bytes(&self, sink: &mut dyn AmlSink) {
         // Type
+        assert!(self.len() <= u16::MAX as usize);
         sink.byte(RimtDeviceType::Platform as u8);
         // Revision
         sink.byte(1);
